@@ -112,6 +112,9 @@ def to_jst(types, uses, spec_keys=None):
                 out += ["    Params", "      1", "    Result", block(t, 6)]
             out.append("")
             continue
+        if i % 2 == 1:
+            # a neighbour without any JSight schema: every per-interaction loop must go on after it
+            out += ["GET /d%d" % i, "    200 any", ""]
         path = "/u%d" % i
         if k == "path":
             keys = spec_keys(i) if spec_keys else [key for key, _ in t[2]]
@@ -126,8 +129,12 @@ def to_jst(types, uses, spec_keys=None):
         elif k == "req":
             out += ["    Request", block(t, 8)]
         elif k == "resph":
+            if i % 3 != 0:
+                out += ["    204 any", "    404", "        Body empty"]
             out += ["    200", "        Headers", block(t, 12), "        Body any"]
         elif k == "resp":
+            if i % 3 != 0:
+                out += ["    204 any", "    401 regex", "        /a/", "    404", "        Headers", "            {}", "        Body empty"]
             out += ["    200", block(t, 8)]
         out.append("")
     return "\n".join(out)
@@ -175,9 +182,9 @@ def use_schema(j, i, kind):
         if kind == "req":
             return _schema((it.get("request") or {}).get("body"))
         if kind == "resph":
-            return _schema(it["responses"][0].get("headers"))
+            return _schema([r for r in it["responses"] if r.get("code") == "200"][0].get("headers"))
         if kind == "resp":
-            return _schema(it["responses"][0].get("body"))
+            return _schema([r for r in it["responses"] if r.get("code") == "200"][0].get("body"))
         if kind == "rpcp":
             return _schema(it.get("params"))
         if kind == "rpcr":
